@@ -1,6 +1,6 @@
 """C05 — ceramic reliability obeys the Weibull laws and is frame-indifferent.
 
-Lean: SrModel/Ceramic.lean (model), SrProofs/Ceramic.lean, SrProps/C05.lean (theorems).
+Lean: SrModel/Ceramic.lean, SrModel/Volume.lean (models), SrProofs/Ceramic.lean, SrProofs/Volume.lean, SrProps/C05.lean (theorems).
 Tie:  synthetic receivers (1-3 tubes, ragged panels, multipliers, 1D/2D/3D tubes) with random
       stress/temperature histories written into `tube.quadrature_results`; the real
       `tube_log_reliability` runs in-process with two recorders (the arguments/return value of
@@ -11,6 +11,7 @@ Tie:  synthetic receivers (1-3 tubes, ragged panels, multipliers, 1D/2D/3D tubes
       the tensor assembly (1e-13).  `determine_reliability` (real pool, nthreads=1) is compared with
       the model's aggregation of the model's tube values (`c05agg`).  The orientation grids of the
       model objects are compared with the model's (`c05grid`).
+      Element volumes: the real `Tube.element_volumes()` (1D/2D/3D) is compared with SrModel.Volume (`vol`, 1e-12).
 Search: metamorphic predicates on the real code, independent of the model: rotation of the stored
       tensors, compressive states, scale-up, longer service, volume linearity, PIA uniaxial law,
       zero-time power law, aggregation (ragged panels, multipliers), range (0,1].
@@ -18,7 +19,8 @@ Search: metamorphic predicates on the real code, independent of the model: rotat
       grid (exact, same-grid kbar; eigvalsh replaced by "take the diagonal" so that the tension pairs with
       l = cos A) and for all eight models along the coordinate axes within the quadrature accuracy (5 %)
       (signature c05:uniaxial:<model>); Batdorf models with repeated principal values, diag vs rotated
-      (signature c05:repeated-principal-values).
+      (signature c05:repeated-principal-values).  Element volumes on the real values alone: count, every volume > 0,
+      elements and totals equal to the closed forms of the volume theorems, linear in the height (signature c05:volume).
 """
 import json
 import math
@@ -923,12 +925,160 @@ def size_of(j):
     return len(json.dumps(j))
 
 
+# ---------------------------------------------------------------------------
+# element volumes: real `Tube.element_volumes()` vs SrModel.Volume, and the closed forms of
+# SrProps.C05.volume1d_total / volume2d_closed_form / volume2d_total / volume3d_total / volume_pos /
+# volume_linear_in_height evaluated on the real values alone
+# ---------------------------------------------------------------------------
+REL_VOL = 1e-12        # model vs code, totals vs closed forms, linearity in h
+REL_VOL_ELEM = 1e-11   # single element vs its closed form (r[i+1]^2 - r[i]^2 cancels ~ ro/(2 edge) ulps)
+
+
+def real_volumes(g, h=None):
+    """the real `element_volumes()` of the tube described by g (after make_1D / make_2D as needed)"""
+    from srlife import receiver
+    h = g["h"] if h is None else h
+    tube = receiver.Tube(g["ro"], g["t"], h, g["nr"], g["nt"], g["nz"])
+    if g["dim"] == 1:
+        tube.make_1D(h / 2, 0.25)
+    elif g["dim"] == 2:
+        tube.make_2D(h / 2)
+    return np.ravel(np.asarray(tube.element_volumes(), dtype=float))
+
+
+def vol_line(g):
+    return "vol %d %d %d %d %d %d %d %d" % (g["dim"], common.f2bits(g["ro"]), common.f2bits(g["t"]), common.f2bits(g["h"]),
+                                            g["nr"], g["nt"], g["nz"], common.f2bits(np.pi))
+
+
+def gen_vol_geom(rng, k):
+    """random tube; the first cases sit on the boundaries of the theorem hypotheses (nr = 2, nt = 3, nz = 2,
+    thin and thick walls)"""
+    dim = [1, 2, 3][k % 3]
+    ro = float(rng.uniform(2.0, 40.0))
+    g = dict(dim=dim, ro=ro, t=float(rng.uniform(0.05, 0.6) * ro), h=float(rng.uniform(0.5, 60.0)),
+             nr=int(rng.integers(2, 9)), nt=int(rng.integers(3, 13)), nz=int(rng.integers(2, 7)))
+    if k < 3:
+        g.update(nr=2, nt=3, nz=2)
+    elif k < 6:
+        g.update(t=0.02 * ro, nr=8)
+    elif k < 9:
+        g.update(t=0.9 * ro, nt=12, nz=6)
+    return g
+
+
+def vol_closed_form(g, h=None):
+    """element values and total of the theorems (independent of the model): r_i = ro - t + t i/(nr-1);
+    1D pi (r_{i+1}^2 - r_i^2) h; 2D 1/2 (r_{i+1}^2 - r_i^2) sin(2 pi/nt) h, order (i, j); 3D the 2D value times
+    1/(nz-1), order (i, j, k); totals pi (ro^2 - (ro-t)^2) h and (nt/2) sin(2 pi/nt) (ro^2 - (ro-t)^2) h"""
+    h = g["h"] if h is None else h
+    ro, t, nr, nt, nz = g["ro"], g["t"], g["nr"], g["nt"], g["nz"]
+    r = [ro - t + t * i / (nr - 1) for i in range(nr)]
+    ring = [(r[i + 1] - r[i]) * (r[i + 1] + r[i]) for i in range(nr - 1)]
+    wall = t * (2.0 * ro - t)                       # ro^2 - (ro - t)^2
+    if g["dim"] == 1:
+        return np.array([math.pi * x * h for x in ring]), math.pi * wall * h
+    s = math.sin(2.0 * math.pi / nt)
+    if g["dim"] == 2:
+        return np.array([0.5 * x * s * h for x in ring for _ in range(nt)]), nt / 2.0 * s * wall * h
+    return (np.array([0.5 * x * s * h / (nz - 1) for x in ring for _ in range(nt) for _ in range(nz - 1)]),
+            nt / 2.0 * s * wall * h)
+
+
+def pred_tube_volume(p):
+    """on the real values alone: count, every volume finite and > 0, every element and the total equal to the
+    closed forms, volumes linear in the tube height"""
+    g = p["geom"]
+    try:
+        v = real_volumes(g)
+        vc = real_volumes(g, g["h"] * p["c"])
+    except Exception as e:
+        return ["Tube.element_volumes raised %s: %s" % (type(e).__name__, e)]
+    what = "%dD tube ro=%r t=%r h=%r nr=%d nt=%d nz=%d" % (g["dim"], g["ro"], g["t"], g["h"], g["nr"], g["nt"], g["nz"])
+    bad = []
+    if v.size != nelem_of(g):
+        return ["%s: %d element volumes for %d elements" % (what, v.size, nelem_of(g))]
+    if not (np.all(np.isfinite(v)) and np.all(v > 0.0)):
+        i = int(np.argmin(np.where(np.isfinite(v), v, -np.inf)))
+        bad.append("%s: element volume %d is %r, not > 0" % (what, i, float(v[i])))
+    elem, total = vol_closed_form(g)
+    if not common.close(float(np.sum(v)), float(total), rel=REL_VOL, abs_=0.0):
+        bad.append("%s: total element volume %r, closed form %s = %r (ratio %.12f)" % (
+            what, float(np.sum(v)), "pi (ro^2-(ro-t)^2) h" if g["dim"] == 1 else "(nt/2) sin(2pi/nt) (ro^2-(ro-t)^2) h",
+            float(total), float(np.sum(v)) / total))
+    d = first_diff(v, elem, REL_VOL_ELEM)
+    if d:
+        bad.append("%s: element volume differs from %s: %s" % (
+            what, "pi (r[i+1]^2-r[i]^2) h" if g["dim"] == 1 else "1/2 (r[i+1]^2-r[i]^2) sin(2pi/nt) h [/(nz-1)]", d))
+    d = first_diff(vc, v * p["c"], REL_VOL)
+    if d:
+        bad.append("%s: volumes at height %g h are not %g times the volumes at h: %s" % (what, p["c"], p["c"], d))
+    return bad
+
+
+PREDS["tube_volume"] = pred_tube_volume
+
+
+def volume_check(ctx, rng):
+    """-> (jobs, model/code disagreements [(job, text)], predicate failures [(job, [text])])"""
+    n = 40 if ctx.quick() else 400
+    jobs = [dict(pred="tube_volume", signature="c05:volume", geom=gen_vol_geom(rng, k),
+                 c=float([0.5, 2.0, 3.7, rng.uniform(0.1, 9.0)][k % 4])) for k in range(n)]
+    drv = common.LeanDriver(["SrModel.Volume"])
+    answers = drv.ask([vol_line(j["geom"]) for j in jobs])
+    mism, fails = [], []
+    for k, (j, ans) in enumerate(zip(jobs, answers)):
+        g = j["geom"]
+        try:
+            real = real_volumes(g)
+            d = "model answers bad-op" if ans == "bad-op" else first_diff(real, unbits(ans), REL_VOL)
+        except Exception as e:
+            real, d = np.array([]), ""          # reported by the predicate below
+        ctx.case(("vol", k), nontrivial=real.size > 1, tag="volume/%dD" % g["dim"],
+                 sample={"geom": g, "real_first": float(real[0]) if real.size else None,
+                         "model_first": float(unbits(ans)[0]) if ans != "bad-op" and real.size else None} if k == 2 else None)
+        if d:
+            mism.append((j, "Tube.element_volumes vs model (%dD nr=%d nt=%d nz=%d): %s" % (g["dim"], g["nr"], g["nt"], g["nz"], d)))
+        bad = pred_tube_volume(j)
+        ctx.case(("volpred", k), nontrivial=True, tag="meta/tube_volume/%dD" % g["dim"])
+        if bad:
+            fails.append((j, bad))
+    return jobs, mism, fails
+
+
+def volume_replay(p):
+    """re-run one volume case: real values, model values, closed forms"""
+    g = p["geom"]
+    print("tube:", g, "height factor:", p.get("c"))
+    bad = list(pred_tube_volume(p))
+    try:
+        real = real_volumes(g)
+        ans = common.LeanDriver(["SrModel.Volume"]).ask([vol_line(g)])[0]
+        elem, total = vol_closed_form(g)
+        print("  real volumes (first 4):", real[:4].tolist(), "total", float(np.sum(real)))
+        print("  closed form  (first 4):", elem[:4].tolist(), "total", float(total))
+        if ans != "bad-op":
+            print("  model volumes (first 4):", unbits(ans)[:4].tolist(), "total", float(np.sum(unbits(ans))))
+        d = "model answers bad-op" if ans == "bad-op" else first_diff(real, unbits(ans), REL_VOL)
+        if d:
+            bad.append("Tube.element_volumes vs SrModel.Volume: " + d)
+    except common.Infra:
+        raise
+    except Exception as e:
+        print("  real code raised %s: %s" % (type(e).__name__, e))
+    return bad
+
+
 def run(ctx):
     ctx.rule = ("correspondence: receivers with panel shapes from %s, 1D/2D/3D tubes with nr,nt<=3, 1-3 quadrature points, "
                 "time axes all-zero (1-3 steps) / increasing from 0 / offset, service times {0,1,50,1e3,1e4,1e5}, per point a random "
                 "rotation of principal values drawn from {generic, tensile, cut-off, near cut-off, compressive}, temperatures in "
                 "[300,1360], both SiC variants, cut-off on/off, reduced orientation grids (3..13) plus default grids; a tube case is "
-                "non-trivial when some element log-reliability is < 0.  metamorphic: see tags meta/<predicate>/<model>" % PANEL_SHAPES)
+                "non-trivial when some element log-reliability is < 0.  metamorphic: see tags meta/<predicate>/<model>.  "
+                "element volumes (tags volume/<dim>, meta/tube_volume/<dim>): 40 (quick) / 400 (thorough) tubes, dim cycling 1D/2D/3D, "
+                "nr 2..8, nt 3..12, nz 2..6, ro in [2,40], t in [0.05,0.6] ro, h in [0.5,60], the first nine on the boundaries "
+                "nr=2,nt=3,nz=2 / t=0.02 ro / t=0.9 ro; height factors {0.5,2,3.7,random}; non-trivial when the tube has more than "
+                "one element" % PANEL_SHAPES)
     ctx.trusted = ["Lean 4 kernel + Mathlib (propext, Classical.choice, Quot.sound)",
                    "harness/c05.py (recorders around calculate_element_log_reliability and numpy.linalg.eigvalsh)",
                    "numpy.linalg.eigvalsh returns the sorted eigenvalues (a function of the similarity class): hypothesis of frame_indifferent",
@@ -950,6 +1100,12 @@ def run(ctx):
     jobs, fails = metamorphic(ctx, rng)
     ctx.obligation("property predicates on real executions (rotation, compressive, scale, time, volume, uniaxial, power law, aggregation, range)",
                    not fails, "also uniaxial (polar axis exact, coordinate axes 5 %%) and repeated principal values; %d of %d fail; first: %s" % (len(fails), len(jobs), fails[0][1][:1] if fails else ""))
+    vjobs, vmism, vfails = volume_check(ctx, np.random.default_rng(ctx.rng.getrandbits(63)))
+    ctx.obligation("correspondence: Tube.element_volumes (1D/2D/3D, flattening order) == SrModel.Volume (rel 1e-12)", not vmism,
+                   "%d of %d tubes disagree; first: %s" % (len(vmism), len(vjobs), vmism[0][1] if vmism else ""))
+    ctx.obligation("property predicate on the real element volumes: count, every volume > 0, elements (1e-11) and total (1e-12) equal "
+                   "to the closed forms of volume1d_total / volume2d_closed_form / volume2d_total / volume3d_total, linear in h (1e-12)",
+                   not vfails, "%d of %d fail; first: %s" % (len(vfails), len(vjobs), vfails[0][1][:1] if vfails else ""))
     ctx.extra["traces_validated_against_impl"] = ctx.evals
     with warnings.catch_warnings():
         warnings.simplefilter("ignore")
@@ -967,6 +1123,16 @@ def run(ctx):
                 continue
             seen.add(sig)
             ctx.violation("real srlife.damage: " + bad[0], dict(j, failures=bad), signature=sig)
+    # element volumes: a real failing input first; a bare model/code disagreement names the correspondence
+    if vfails:
+        j, bad = sorted(vfails, key=lambda x: size_of(x[0]))[0]
+        ctx.violation("real srlife.receiver.Tube.element_volumes: " + bad[0],
+                      dict(j, failures=bad, n_failing=len(vfails)), signature="c05:volume")
+    elif vmism:
+        j, why = sorted(vmism, key=lambda x: size_of(x[0]))[0]
+        ctx.violation("model and code disagree on the element volumes (no volume predicate fails): " + why,
+                      dict(j, failures=[why], n_disagreeing=len(vmism), correspondence="harness/c05.py vs SrModel.Volume"),
+                      no_input=True)
     # exceptions of the real code in the correspondence runs are failing inputs too
     if crashed and not fails:
         ci, why = crashed[0]
@@ -979,7 +1145,7 @@ def run(ctx):
         ctx.violation("model and code disagree (no metamorphic predicate fails): " + mism[ci][0],
                       dict(c, pred="correspondence", failures=mism[ci], n_disagreeing=len(mism),
                            correspondence="harness/c05.py vs SrModel.Ceramic"), no_input=True)
-    if not thm_ok and not fails and not mism and not crashed:
+    if not thm_ok and not fails and not mism and not crashed and not vfails and not vmism:
         ctx.violation("a C05 theorem no longer checks", {"lean": ctx.extra.get("lean_errors"), "theorems": ctx.extra.get("broken_theorems")},
                       no_input=True)
     return "proof"
@@ -992,7 +1158,10 @@ def replay(obj):
         return 1
     with warnings.catch_warnings():
         warnings.simplefilter("ignore")
-        bad = corr_replay(p) if p["pred"] == "correspondence" else PREDS[p["pred"]](p)
+        if p["pred"] == "tube_volume":
+            bad = volume_replay(p)
+        else:
+            bad = corr_replay(p) if p["pred"] == "correspondence" else PREDS[p["pred"]](p)
     print("predicate:", p["pred"], "model:", p.get("model"), "variant:", p.get("variant"))
     for b in bad:
         print("  FAILS:", b)
